@@ -116,6 +116,16 @@ pub(crate) fn c08_eval_symbolic_table_small() {
     symbolic_table_body(4, 4, 2);
 }
 
+/// few transitions but full lookahead depth (quick tier): <= 3 transitions, <= 4 states, k <= 3
+#[kani::proof]
+#[kani::unwind(8)]
+#[kani::stub(std::fmt::format, stub_format)]
+#[kani::stub(crate::TokenStream::lookahead_token_type, stub_lookahead_token_type)]
+#[kani::stub(crate::TokenStream::token_types, stub_token_types)]
+pub(crate) fn c08_eval_symbolic_table_k3() {
+    symbolic_table_body(3, 4, 3);
+}
+
 fn symbolic_table_body(max_n: usize, max_states: usize, max_k: usize) {
     let n: usize = kani::any();
     kani::assume(n <= max_n);
@@ -207,7 +217,7 @@ macro_rules! c08_tables {
 c08_tables! {
     c08_tab_anbn: ll_anbn; c08_tab_k2: ll_k2; c08_tab_k3: ll_k3; c08_tab_unite: ll_unite_order;
     c08_tab_nullable: ll_nullable_tail; c08_tab_expr: ll_expr; c08_tab_leftfactor: ll_leftfactor;
-    c08_tab_k3_nt: ll_k3_nt; c08_tab_list_k2: ll_list_k2;
+    c08_tab_k3_nt: ll_k3_nt; c08_tab_list_k2: ll_list_k2; c08_tab_k3_short: ll_k3_short;
 }
 
 /// vacuity twin: must FAIL
